@@ -173,7 +173,7 @@ func (w *monWorld) nextHook(await string) string {
 	case "stopped":
 		done := waitChan(w.loop.Done())
 		leaked := settle(func() int {
-			return countStacks("cluster.(*deploymentMonitor)") + countStacks("go-lifecycle.(*lifecycle).WatchChannel") - w.baseWC
+			return countStacks("cluster.(*deploymentMonitor)", "go-lifecycle.(*lifecycle).WatchChannel") - w.baseWC
 		})
 		l := line{"k": "stopped", "done": done, "leaked": leaked}
 		w.effects(l, false, false)
